@@ -157,8 +157,16 @@ func runCheck(o *checkOpts) *CheckReport {
 		return rep
 	}
 	byPkg := map[string][]string{}
+	var shared []string
 	for _, f := range files {
+		if f.pkgDir == "*" {
+			shared = append(shared, f.path)
+			continue
+		}
 		byPkg[f.pkgDir] = append(byPkg[f.pkgDir], f.path)
+	}
+	for d := range byPkg {
+		byPkg[d] = append(byPkg[d], shared...)
 	}
 	var onlyRe *regexp.Regexp
 	if o.only != "" {
